@@ -198,3 +198,49 @@ PROPS["C07"] = dict(
     assumptions=EXEC_ASSUME + ["float32 values are compared through their shortest decimal representation"],
     design_ref="DESIGN.md section 5 C07",
 )
+
+PROPS["C02"] = dict(
+    pkg="exec", test="TestC02", engine="exec", own_loop=True,
+    quick=dict(checks=900, shards=3), thorough=dict(checks=48000, shards=16),
+    nt_floor=dict(quick=500, thorough=20000),
+    must_classes=["config=uniform-Resolver", "config=uniform-root-resolver", "config=uniform-reflection-auto", "config=uniform-reflection-registered",
+                  "config=uniform-Resolver-with-reflective-poison", "config=mixed-any=true", "config=mixed-any=false", "mixed-families",
+                  "registered-field-renames", "method-or-resolver-with-args", "variables", "fragments", "list"],
+    level="exploration",
+    technique="differential testing across resolver strategies: one neutral data graph served by seven configurations (uniform Resolver / root resolver / reflection auto / reflection registered / Resolver objects carrying poisoned reflective fields / two mixed assignments), all compared with the reference executor",
+    rule="Schemas over a fixed universe of named Go types (fields of every scalar kind, typed slices, []interface{}, [][]interface{}, methods"
+         " with String/Boolean arguments, one method bound with RegisterField and a permuted argument order, optional field renames via"
+         " RegisterField; binding by name, by @go in three spellings or by RegisterType), a typed data graph, a generated request (aliases,"
+         " fragments on the concrete type, variables, string/boolean arguments). Every case is executed under 7 configurations; mixed"
+         " configurations draw a family per GraphQL type from {Resolver, Resolver+poisoned reflective fields, reflection} resp. {Resolver,"
+         " Resolver+poison, root resolver handle, root resolver over a struct with poisoned fields}. Oracle: data and error paths of every"
+         " configuration equal the reference (hence each other); poison makes a wrong precedence visible. Non-trivial = mixed configuration"
+         " reaching >= 2 object levels and a list. evaluations counts (case, configuration) pairs.",
+    level_text="Differential search; equality with one independent reference implies pairwise equality of the strategies.",
+    level_note="Trusted: reference executor; UniverseCompute as the single definition of what method-backed fields return.",
+    assumptions=EXEC_ASSUME + ["within one mixed configuration all objects of one GraphQL type share a representation family (ggql caches one Go type per GraphQL type)"],
+    design_ref="DESIGN.md section 5 C02",
+)
+
+PROPS["C08"] = dict(
+    pkg="exec", test="TestC08", engine="exec", own_loop=True,
+    quick=dict(checks=2400, shards=3), thorough=dict(checks=160000, shards=16),
+    nt_floor=dict(quick=500, thorough=30000),
+    must_classes=["config=reflection", "config=mixed-registered", "abstract-field-resolved", "fragment-cond-differs-and-applies", "fragment-not-applicable",
+                  "__typename", "binding=name/X", "binding=go-short/X", "binding=go-pkg/X", "binding=go-full/X", "binding=register/X", "binding=name/UR",
+                  "frag:interface-container/object-condition", "frag:union-container/object-condition", "frag:object-container/interface-condition",
+                  "frag:object-container/union-condition", "frag:union-container/interface-condition", "frag:interface-container/union-condition"],
+    level="exploration",
+    technique="model-based differential testing over schemas with interfaces and unions: named Go types bound by name, @go (3 spellings) or RegisterType, reflection and mixed registered Resolver objects, compared with the reference executor's applicability relation",
+    rule="Universe schemas with interface Named and union Any; every object type chooses one composite target (object / Named / Any) for its"
+         " object-, list- and list-of-list-valued fields and methods, so lists mix several concrete types under one abstract field; requests"
+         " with inline and named fragments conditioned on object / interface / union types (also unrelated ones) at any depth, __typename"
+         " everywhere. Configurations: all objects found by reflection; mixed graph where some GraphQL types are served by registered Go"
+         " types that implement ggql.Resolver. Oracle: data (incl. __typename = concrete type, fragment applies iff equal / implements /"
+         " member) and error paths equal the reference. Non-trivial = an abstract-typed field is resolved and a fragment whose condition"
+         " differs from the static container type applies.",
+    level_text="Differential search; the binding modes and container x condition kinds are enumerated by class counters, their combinations sampled.",
+    level_note="Trusted: reference executor's Applies(); the interface-resolver-only configuration (no type binding) is outside the claim and not generated.",
+    assumptions=EXEC_ASSUME,
+    design_ref="DESIGN.md section 5 C08",
+)
